@@ -869,7 +869,6 @@ def r3j(ctx: Ctx) -> list[Ob]:
 
 
 # ------------------------------------------------------------------------------------------ R3k
-SYM_LAYER = "cirkit.symbolic.layers.Layer"
 
 
 def r3k(ctx: Ctx) -> list[Ob]:
